@@ -15,7 +15,10 @@ package remember
 //@   ensures no_panic: !panics
 //@
 //@ func Authenticate
-//@   property C07 C01 C06 C18 C17
+//@   property C07 C01 C06 C18 C17 C10
+//@   -- C10 (round 11, C10k): the only cookie this module ever sets is the one the logout handler
+//@   -- deletes (DelKnownCookie removes CookieRemember) - a remember cookie under another name survives a logout
+//@   ensures[C10] cookie_is_the_one_logout_deletes: each Cook.Put(?k, _) => k == CookieRemember
 //@   ensures[C17] no_secret_leak: secrets_clean
 //@   let rq = deref(req)
 //@   let raw = b64url_dec(cookie(rq, "rm"))
@@ -40,7 +43,10 @@ package remember
 //@       (result != nil && !emits Sess.Put(_, _) && !emits Cook.Put(_, _))
 //@
 //@ func (*Remember).RememberAfterAuth
-//@   property C07 C18 C17
+//@   property C07 C18 C17 C10
+//@   -- C10 (round 11, C10k): the only cookie this module ever sets is the one the logout handler
+//@   -- deletes (DelKnownCookie removes CookieRemember) - a remember cookie under another name survives a logout
+//@   ensures[C10] cookie_is_the_one_logout_deletes: each Cook.Put(?k, _) => k == CookieRemember
 //@   ensures[C17] no_secret_leak: secrets_clean
 //@   -- a cookie is only issued when the submitted values ask for it, and it is the
 //@   -- token whose hash was stored for the current user
@@ -64,6 +70,11 @@ package remember
 //@   ensures mw_only_anonymous: each Store.UseRememberToken(_, _) =>
 //@       ite(ctxpid(r) != nil, asstring(ctxpid(r)) == "", sess(r, "uid") == "")
 //@   ensures mw_next_runs: !panics ==> emits Next.ServeHTTP(_, _, _)
+//@   -- C07 (round 11, C07k): the middleware identifies nobody on its own - every identity it
+//@   -- writes is backed by a stored token that this very request spent (no cache of recently
+//@   -- exchanged cookies, no second way in)
+//@   ensures[C07,C01] mw_logs_in_only_by_token: each Sess.Put("uid", ?v) =>
+//@       before Store.UseRememberToken(?p, _) -> ?e :: e == nil && p == v
 //@
 //@ func (*Remember).AfterPasswordReset
 //@   property C06 C07 C17
